@@ -91,7 +91,7 @@ for n, tier, cap in (("ascii_2", Q, 600), ("ascii_3", Q, 900), ("c40_1", Q, 900)
         bounds="real %s encoder over the array-backed context HEnc: %s arbitrary characters (%s), 1..=8 codewords already present, symbol list = any 1..3 ascending capacities from the real catalogue (<= 43), planned switch to ASCII at any character or none; stream finished as the dispatch loop does (rest in ASCII, UNLATCH, PAD, 253-state pads) and decoded by the independent ISO/IEC 16022 decoder: output == input, no assertion/overflow/index failure" % (m, l, "EDIFACT-encodable" if m == "edifact" else "X12-native in the full triples" if m == "x12" else "all 256 values"),
         encodes=_enc_fn[m] + ["encodation::ascii::encode", "encodation::ascii::encoding_size"])
 for n in ("249", "250", "251", "1555"):
-    reg("conf_b256_" + n, "enc", ["C02", "C01", "C11"], cap=1800, mem_gb=20 if n == "1555" else 8, tier=T if n == "1555" else Q, role="attempt" if n == "1555" else "lemma",
+    reg("conf_b256_" + n, "enc", ["C02", "C01", "C11"], cap=1800, mem_gb=20 if n == "1555" else 16, tier=T if n == "1555" else Q, role="attempt" if n == "1555" else "lemma",
         qprops=["C02", "C01"] if n == "250" else ["C02"],
         bounds="Base256 run of exactly %s bytes (one symbolic byte repeated) to the end of the data, explicit length: length field per ISO/IEC 16022 (1 codeword up to 249, 2 from 250), content de-randomises to the input, no panic" % n,
         encodes=["encodation::base256::encode", "base256::write_length", "base256::randomize_255_state"])
@@ -151,13 +151,17 @@ for n in ("5_11", "12_18", "20", "22", "24", "27", "28", "32", "34", "36", "38",
         bounds="degree(s) %s: one LFSR step from an ARBITRARY register state (k symbolic bytes) with an arbitrary data byte == (old*x + a*x^k) mod g coefficient-wise in shift-xor arithmetic (one inductive step => any data length)" % n.replace("_", "..")
         , encodes=["errorcode::ecc_block", "errorcode::generator"])
 for n in ("sq52", "sq64", "sq72", "sq80", "sq88", "sq96", "sq104", "sq120", "sq132", "sq144", "sq10", "r16x48"):
-    reg("rs_glue_" + n, "ec", ["C06", "C01"], cap=2400, mem_gb=8 if n in ("sq52", "sq10", "r16x48") else 16, stubbing=True, tier=Q if n in ("sq52", "sq10", "r16x48", "sq144") else T,
+    reg("rs_glue_" + n, "ec", ["C06", "C01"], cap=2400, mem_gb=8 if n in ("sq52", "sq10", "r16x48") else 16, stubbing=True, tier=Q if n in ("sq52", "sq10", "r16x48") else T, role="attempt" if n in ("sq104", "sq120", "sq132", "sq144") else "lemma",
         qprops=["C06", "C01"] if n == "sq10" else ["C06"],
         bounds="%s: data = fixed pattern with the first and last codeword of every block symbolic; ecc_block replaced by a recording stub (count, first, last, rotating xor): block q receives exactly the codewords q, q+B, q+2B, ... and its result is written to positions q, q+B, ..." % n,
         encodes=["errorcode::encode_error"])
 for n in ("sq52", "sq10", "r16x48"):
     reg("rs_gluefull_" + n, "ec", ["C06"], cap=2400, mem_gb=8, stubbing=True, tier=T if n == "sq52" else Q,
         bounds="%s: EVERY data codeword symbolic; ecc_block replaced by a recording stub: block q receives exactly the codewords q, q+B, ... and its result is written to positions q, q+B, ..." % n, encodes=["errorcode::encode_error"])
+for n in ("sq144", "sq132", "sq120", "sq104", "sq64"):
+    reg("rs_gluelight_" + n, "ec", ["C06", "C01"], cap=1200 if n == "sq64" else 5400, mem_gb=8 if n == "sq64" else 16, stubbing=True, tier=Q if n == "sq64" else T, qprops=["C06"],
+        bounds="%s: ecc_block replaced by a stub recording the exact size hint and the first element of the block iterator: block q is handed exactly ceil((n-q)/B) codewords starting with codeword q, results interleaved at q, q+B, ...; first codeword of every block symbolic" % n,
+        encodes=["errorcode::encode_error"])
 reg("rs_il_sq10", "ec", ["C06", "C01"], cap=600, bounds="10x10: all data zero except the last codeword (symbolic): error codewords == a*x^k mod g at the interleaved positions", encodes=["errorcode::encode_error", "errorcode::ecc_block"])
 reg("rs_il_r8x32", "ec", ["C06"], cap=900, tier=T, bounds="8x32: same", encodes=["errorcode::encode_error"])
 for n in ("sq52", "sq64", "sq144"):
@@ -225,7 +229,7 @@ for n in ("r8x32", "sq12"):
 reg("fd_ragged_r8x18", "place", ["C08", "C05"], cap=600, stubbing=True, unwindset=[("btree", 4)],
     bounds="8x18 symbol + 1 / + 17 stray pixels -> DataSize, width 0 -> ZeroWidth; pixel values symbolic", encodes=TFB[:1])
 reg("fd_reject_small", "place", ["C08", "C05"], cap=900, stubbing=True, unwindset=[("btree", 4)],
-    bounds="arrays of 36 and 25 symbolic pixels, symbolic width 0..=12: ZeroWidth / DataSize / SymbolSize exactly; SymbolList::all stubbed to the two smallest sizes", encodes=TFB[:1])
+    bounds="arrays of 36, 25 and 0 symbolic pixels with widths 0, 5, 6, 12, 3: ZeroWidth / DataSize / SymbolSize exactly; SymbolList::all stubbed to the two smallest sizes", encodes=TFB[:1])
 
 H = [h for h in ALL]
 
